@@ -86,7 +86,14 @@ func (i *ItemIter) Next() bool {
 		return false
 	}
 	// TODO: set context based on a deadline?
-	i.iter = FetchItems(i.ctx, i.current, i.session).iter
+	// If the request for the next page fails there is no new iterator: report
+	// the error instead of continuing with a nil one.
+	nextPageIter := FetchItems(i.ctx, i.current, i.session)
+	if nextPageIter.err != nil {
+		i.err = nextPageIter.err
+		return false
+	}
+	i.iter = nextPageIter.iter
 	return i.Next()
 }
 
